@@ -213,8 +213,9 @@ func (s *Service) AttestAndScheduleAggregate(ctx context.Context, duty *attester
 				continue
 			}
 			// We are set up as an aggregator for this slot and committee.  It is possible that another validator has also been
-			// assigned as an aggregator, but we're already carrying out the task so do not need to go any further.
-			return
+			// assigned as an aggregator, but we're already carrying out the task so do not need to go any further for this
+			// committee; the attestations of the other committees still need their own aggregation jobs.
+			continue
 		}
 	}
 }
